@@ -391,3 +391,8 @@ Proof.
     rewrite imp_parseTags. destruct (parse_tags o rest) as [m| |]; cbn [go_call obind]; cbv zeta; cbn [after]; reflexivity.
   - destruct HP as (p' & ->). cbn [go_call]. cbv zeta. cbn [after]. reflexivity.
 Qed.
+
+(* ---- SAM.MarshalText -------------------------------------------------------------------------------- *)
+Theorem imp_SAM_MarshalText o r :
+  imp_sam_SAM_MarshalText o (sam_of r) = Ret (write o r, false).
+Proof. unfold imp_sam_SAM_MarshalText, write. cbv zeta. rewrite imp_SAM_Write. reflexivity. Qed.
